@@ -5,7 +5,7 @@
    property text; x_f / y_f / f_f = what the code computes; points_api / points_sid_api = the two exported functions. *)
 From Coq Require Import ZArith Reals List String Floats.
 From Flocq Require Import Core.
-From SID Require Import Base Str Ids F64 ExactRef PointF Voxel PtBridge FF XF YF PtMerc PointCheck PointProofs SetLatProofs.
+From SID Require Import Base Str Ids F64 ExactRef PointF Voxel PtBridge FF XF YF PtMerc PointCheck PointProofs SetLatProofs PointSetters.
 Import ListNotations.
 Open Scope Z_scope.
 
@@ -264,6 +264,68 @@ Theorem C01_setlat_checker_sound : forall lat s, ffin lat = true -> ffin s = tru
 Proof. exact exact_cut_ok_spec. Qed.
 Print Assumptions C01_setlat_checker_sound.
 
+(* ================= object.Point setters (model: PointSetters.set_lon / set_lat / set_alt on the stored triple) ================= *)
+(* SetAlt stores its argument unchanged — the same float, hence the same bits (NaN, -0, denormals included) —, leaves longitude and latitude
+   alone and has no error result *)
+Theorem C01_SetAlt_stores_bits_and_nothing_else : forall p alt,
+  palt (set_alt p alt) = alt /\ feqb_bits (palt (set_alt p alt)) alt = true /\ plon (set_alt p alt) = plon p /\ plat (set_alt p alt) = plat p.
+Proof. exact set_alt_frame. Qed.
+Print Assumptions C01_SetAlt_stores_bits_and_nothing_else.
+Theorem C01_SetAlt_last_write_wins : forall p a b, set_alt (set_alt p a) b = set_alt p b.
+Proof. exact set_alt_last_wins. Qed.
+Print Assumptions C01_SetAlt_last_write_wins.
+(* SetLon: refused iff |lon| > 180 (on finite values the real comparison); accepted = bits stored, lat / alt untouched; refused = object unchanged *)
+Theorem C01_SetLon_frame : forall p lon,
+  (snd (set_lon p lon) = false -> plon (fst (set_lon p lon)) = lon /\ plat (fst (set_lon p lon)) = plat p /\ palt (fst (set_lon p lon)) = palt p) /\
+  (snd (set_lon p lon) = true -> fst (set_lon p lon) = p) /\
+  snd (set_lon p lon) = (180 <? abs lon)%float.
+Proof. exact set_lon_frame. Qed.
+Print Assumptions C01_SetLon_frame.
+Theorem C01_SetLon_refuses_iff_beyond_180 : forall p lon, ffin lon = true -> snd (set_lon p lon) = true <-> (180 < Rabs (fval lon))%R.
+Proof. exact set_lon_refuses_iff. Qed.
+Print Assumptions C01_SetLon_refuses_iff_beyond_180.
+(* SetLat: the request is cut to ten decimals first (F64.setlat_trunc), refused iff the CUT value exceeds the limit; accepted = the cut value
+   stored, lon / alt untouched; refused = object unchanged; the stored magnitude is within [-2^-46, 1e-10 + 2^-46] of the request *)
+Theorem C01_SetLat_frame : forall p lat,
+  (snd (set_lat p lat) = false -> plat (fst (set_lat p lat)) = setlat_trunc lat /\ plon (fst (set_lat p lat)) = plon p /\ palt (fst (set_lat p lat)) = palt p) /\
+  (snd (set_lat p lat) = true -> fst (set_lat p lat) = p) /\
+  snd (set_lat p lat) = (c_latmax <? abs (setlat_trunc lat))%float.
+Proof. exact set_lat_frame. Qed.
+Print Assumptions C01_SetLat_frame.
+Theorem C01_SetLat_stored_cut_partial : forall p lat, ffin lat = true -> (Rabs (fval lat) <= 90)%R -> snd (set_lat p lat) = false ->
+  (- bpow radix2 (-46) <= Rabs (fval lat) - Rabs (fval (plat (fst (set_lat p lat)))) <= 1 / 10 ^ 10 + bpow radix2 (-46))%R.
+Proof. exact set_lat_stored_cut. Qed.
+Print Assumptions C01_SetLat_stored_cut_partial.
+(* NewPoint is SetLon; SetLat; SetAlt on the zero object, stopping at the first refusal *)
+Theorem C01_NewPoint_is_the_three_setters : forall lon lat alt,
+  new_point lon lat alt =
+  let '(p1, e1) := set_lon zero_point lon in
+  if e1 then (p1, true) else let '(p2, e2) := set_lat p1 lat in if e2 then (p2, true) else (set_alt p2 alt, false).
+Proof. exact new_point_is_setters. Qed.
+Print Assumptions C01_NewPoint_is_the_three_setters.
+(* setter sequences in any order: a field that no call of the sequence addresses is left exactly as it was, whatever else is called or
+   refused; the altitude is the argument of the last SetAlt; one error flag per call *)
+Theorem C01_setter_sequence_frame : forall l p,
+  (forallb (fun s => negb (touches_lon s)) l = true -> plon (fst (run_setters p l)) = plon p) /\
+  (forallb (fun s => negb (touches_lat s)) l = true -> plat (fst (run_setters p l)) = plat p) /\
+  (forallb (fun s => negb (touches_alt s)) l = true -> palt (fst (run_setters p l)) = palt p).
+Proof. exact run_setters_frame. Qed.
+Print Assumptions C01_setter_sequence_frame.
+Theorem C01_setter_sequence_last_SetAlt : forall l1 a l2 p,
+  forallb (fun s => negb (touches_alt s)) l2 = true -> palt (fst (run_setters p (l1 ++ SAlt a :: l2))) = a.
+Proof. exact run_setters_last_alt. Qed.
+Print Assumptions C01_setter_sequence_last_SetAlt.
+
+(* ================= getVerticalTileIdOnAltitude alone (hook VerifGetVerticalTileIdOnAltitude): the string "vZoom/f" ================= *)
+Theorem C01_vertical_tile_id_partial : forall alt v, 0 <= v <= 35 -> ffin alt = true -> (Rabs (fval alt) <= bpow radix2 40)%R -> ~ alt_underflow alt v ->
+  vertical_tile_id alt v = Some (join [print v; print (F_exact v (fval alt))]).
+Proof. exact vertical_tile_id_exact. Qed.
+Print Assumptions C01_vertical_tile_id_partial.
+Theorem C01_vertical_tile_id_fields : forall alt v f, int64_ok v = true -> int64_ok f = true -> f_f alt v = Some f ->
+  exists s, vertical_tile_id alt v = Some s /\ map parse (split s) = [Some v; Some f].
+Proof. exact vertical_tile_id_fields. Qed.
+Print Assumptions C01_vertical_tile_id_fields.
+
 (* ================= non-vacuity ================= *)
 (* half a metre below ground is layer -1 (truncation would say 0); -2^25 and -1 m are exact multiples of the cell height: layer -1;
    Tokyo station's longitude 139.7671; the float just below 180 (D11, fixed by 242c5f8) stays in the last column *)
@@ -273,6 +335,17 @@ Example C01_nonvacuous_x : x_f 0x1.1788c154c985fp+7%float 25 = Some 29804453 /\ 
 Proof. vm_compute. auto. Qed.
 Example C01_nonvacuous_domain : exists p, pt_domain p /\ ~ x_rounding (fval (plon p)) 0 /\ ~ alt_underflow (palt p) 25.
 Proof. exact pt_domain_example. Qed.
+(* a setter sequence with two refusals (SetLon 181, SetLat 90) on a real-looking object; the vertical hook below ground and on both edges *)
+Example C01_nonvacuous_setters :
+  let p0 := fst (new_point 139.75%float 0x1.1d7318fc50481p+5%float 10%float) in
+  let '(p, flags) := run_setters p0 [SAlt (-0.5)%float; SLon 181%float; SLat 0x1.9d13e90a263bdp+3%float; SLon (-180)%float; SLat 90%float; SAlt (-3)%float] in
+  flags = [false; true; false; false; true; false] /\ feqb_bits (plon p) (-180)%float = true /\ feqb_bits (palt p) (-3)%float = true /\
+  feqb_bits (plat p) 0x1.9d13e90a187d6p+3%float = true.
+Proof. vm_compute. auto. Qed.
+Example C01_nonvacuous_vertical_hook :
+  vertical_tile_id (-0.5)%float 25 = Some "25/-1"%string /\ vertical_tile_id 33554432%float 3 = Some "3/8"%string /\
+  vertical_tile_id (-33554432)%float 0 = Some "0/-1"%string.
+Proof. exact vertical_tile_id_example. Qed.
 
 (* ---- tie to the source by regeneration (DESIGN.md 4.2): shape.CheckZoom and the two literals of SetLat (the latitude limit and 10^10),
    read from /repo's current source on every run, are what the model uses ---- *)
